@@ -209,3 +209,29 @@ pub fn c09_job_uri_third(inp: &mut Inp) {
     core::mem::forget(req);
     reached();
 }
+
+//@ {"tier":"quick","unwind":2,"stubs":["lossy_ascii","drop_even","drop_odd","bm","canon","reserve"],"desc":"job operations WITHOUT optional arguments (exactly charset, language, printer-uri, job-id): Cancel-Job and Get-Job-Attributes emit all four in order; a request with only charset, language and job-uri emits job-uri third","sym":"job id i32"}
+pub fn c09_minimal_targets(inp: &mut Inp) {
+    let id = inp.i32();
+    let req: IppRequestResponse = IppOperationBuilder::cancel_job(Uri::from_static(URI), id).build().into_ipp_request();
+    let b = req.to_bytes();
+    check_prefix(&b, true, true);
+    core::mem::forget(b);
+    core::mem::forget(req);
+    let req: IppRequestResponse = IppOperationBuilder::get_job_attributes(Uri::from_static(URI), id).build().into_ipp_request();
+    let b = req.to_bytes();
+    check_prefix(&b, true, true);
+    core::mem::forget(b);
+    core::mem::forget(req);
+    let mut req = IppRequestResponse::new(IppVersion::v1_1(), Operation::GetJobAttributes, None);
+    req.attributes_mut().add(DelimiterTag::OperationAttributes, IppAttribute::new("job-uri", IppValue::Uri("ipp://h/j/1".to_string())));
+    let b = req.to_bytes();
+    let mut w = Walk::start(&b);
+    assert!(name_is(w.next(), 0x47, "attributes-charset"));
+    assert!(name_is(w.next(), 0x48, "attributes-natural-language"));
+    assert!(name_is(w.next(), 0x45, "job-uri"), "a lone job-uri is emitted, third");
+    assert!(w.next().is_none());
+    core::mem::forget(b);
+    core::mem::forget(req);
+    reached();
+}
